@@ -369,7 +369,7 @@ def run_sched(shard, ctx):
 # driver 1: histories
 # ---------------------------------------------------------------------------
 
-STEPS = ["rewrite", "rewrite-equal-mtime", "del-fai", "del-agp", "load", "crash-load"]
+STEPS = ["rewrite", "rewrite-equal-mtime", "del-fai", "del-agp", "load", "crash-load", "load-after-edit-since-construction"]
 
 
 def variant(rng, k):
@@ -401,6 +401,23 @@ def run_history(ctx, scene, hist, rng, case):
             scene.fai.unlink(missing_ok=True)
         elif step == "del-agp":
             scene.agp.unlink(missing_ok=True)
+        elif step == "load-after-edit-since-construction":
+            # the FastaIndex object is created, THEN the FASTA is rewritten (later mtime), then auto_load() runs
+            p = sched.Proc("A", scene.fa)
+            while not p.done and p.loc != "constructed":
+                p.step()
+            if p.done:
+                continue
+            k += 1
+            scene.write_fasta(variant(rng, k))
+            p.run_to_end()
+            scene.stamp_caches()
+            ref = reference(scene.data)
+            cls = classify_result(p.result, ref)
+            ctx.count(f"history:load-after-edit:{cls.split(':')[0]}")
+            if cls == "WRONG":
+                ctx.violation(f"history:object-created-before-edit-loaded-silently-wrong:{wrong_sig(p.result, ref)}", f"history {hist}: {describe_wrong(p.result, ref)}", case)
+                return
         elif step in ("load", "crash-load"):
             ref = reference(scene.data)
             fm = scene.fa.stat().st_mtime
@@ -535,6 +552,7 @@ def gates(c, tier):
         "history:load:rebuilt": 100,
         "history:equal-mtime-steps": 20,
         "history:crash-loads": 30,
+        "history:load-after-edit:correct": 30,
         "history:fasta-via-symlink-shards": 1,
         "crash:runs": 400,
         "crash:at-raw-file-op": 100,
